@@ -21,7 +21,9 @@ pub fn inverse_gamma_lr<T: MomTropFloat>(
         epsilon_tolerance.to_f64(),
     );
 
-    if res.is_nan() {
+    // a Gamma variate is finite and strictly positive; anything else (NaN, infinity, a zero or
+    // negative iterate) is a failed inversion
+    if !(res.is_finite() && res > 0.0) {
         Err(GammaError {})
     } else {
         Ok(a.from_f64(res))
